@@ -20,7 +20,7 @@ import (
 // a reference peer that applies exactly what was agreed).
 
 func init() {
-	register(&Prop{ID: "C14", Run: runC14, Enum: enumC14, Quick: 10000, Thorough: 150000, Level: "exploration",
+	register(&Prop{ID: "C14", Run: runC14, Enum: enumC14, Quick: 10000, Thorough: 1000000, Level: "exploration",
 		Exhaustive: "all single-offer parameter sets of up to 2 parameters from the grammar x 3 server modes; all response variants x 3 client modes (both tiers)"})
 }
 
